@@ -12,6 +12,9 @@ use std::fmt::{Debug, Formatter};
 use std::hash::Hash;
 use std::io::{BufRead, Write, sink};
 
+#[cfg(feature="verif-hooks")]
+pub mod verif;
+
 struct Graph<T> {
     edges: HashMap<T, HashSet<T>>,
     edges_inverted: HashMap<T, HashSet<T>>,
@@ -59,12 +62,16 @@ impl<T: PartialEq + Eq + Hash + Clone + Debug> Graph<T> {
         let mut stack: VecDeque<(Option<T>, T)> = VecDeque::new();
         let mut parents: HashMap<T, Option<T>> = HashMap::new();
         for node in &self.nodes {
+            #[cfg(feature="verif-hooks")]
+            ::verif_hooks::log_iteration(format!("dfs-node {:?}", node));
             stack.push_back((None, node.clone()));
         }
         while let Some((maybe_parent, cur)) = stack.pop_front() {
             debug!("queue {:?}; processing {:?}->{:?}", stack, maybe_parent, cur);
             if parents.get(&cur).is_none() {
                 for out in &self.out_edges(&cur) {
+                    #[cfg(feature="verif-hooks")]
+                    ::verif_hooks::log_iteration(format!("dfs-out {:?} {:?}", cur, out));
                     debug!("enqueue {:?} from {:?}", out, cur);
                     stack.push_front((Some(cur.clone()), out.clone()));
                 }
@@ -109,6 +116,8 @@ impl<T: PartialEq + Eq + Hash + Clone + Debug> Graph<T> {
         let mut queue = VecDeque::new();
         let mut num_in_unvisited = HashMap::new();
         for node in &self.nodes {
+            #[cfg(feature="verif-hooks")]
+            ::verif_hooks::log_iteration(format!("kahn-node {:?}", node));
             if !self.edges_inverted.contains_key(&node) {
                 debug!("found starting node {:?}", node);
                 queue.push_front(node.clone());
@@ -127,6 +136,8 @@ impl<T: PartialEq + Eq + Hash + Clone + Debug> Graph<T> {
             result.push(cur.clone());
             if let Some(out_edges) = self.edges.get(&cur) {
                 for out_node in out_edges {
+                    #[cfg(feature="verif-hooks")]
+                    ::verif_hooks::log_iteration(format!("kahn-out {:?} {:?}", cur, out_node));
                     let pair = (cur.clone(), out_node.clone());
                     debug!("Found edge {:?}", pair);
                     if !visited.contains(&pair) {
